@@ -385,7 +385,44 @@ class Gen:
       self.emit(f"return {self.expr(t, env, 1)}", ind)
       return "returned"
     unions = [n for n, t in env.items() if tname(t) in ("union", "opt") and not n.startswith("_")]
-    if x > 0.965 and depth < 2:
+    if 0.93 < x <= 0.965:
+      # a generic builtin applied to a value whose element type differs between two alternatives
+      et1, et2 = r.sample(["int", "str", "float", "bytes"], 2)
+      kind = r.choice(["list", "list", "tuple", "set"])
+      def lit(et):
+        vals = [self.literal(et) for _ in range(r.randint(2, 3))]
+        if kind == "list":
+          return "[" + ", ".join(vals) + "]"
+        if kind == "tuple":
+          return "(" + ", ".join(vals) + ",)"
+        return "{" + ", ".join(vals) + "}"
+      v = self.fresh()
+      form = r.randrange(3)
+      if form == 0:
+        self.emit(f"{v} = {lit(et1)} if _flag({r.randint(0, 5)}) else {lit(et2)}", ind)
+      elif form == 1:
+        self.emit(f"if _flag({r.randint(0, 5)}):", ind)
+        self.emit(f"{v} = {lit(et1)}", ind + 1)
+        self.emit("else:", ind)
+        self.emit(f"{v} = {lit(et2)}", ind + 1)
+      else:
+        fn = self.fresh("f")
+        self.emit(f"def {fn}(c):", ind)
+        self.emit("if c:", ind + 1)
+        self.emit(f"return {lit(et1)}", ind + 2)
+        self.emit(f"return {lit(et2)}", ind + 1)
+        self.emit(f"{v} = {fn}(_flag({r.randint(0, 5)}))", ind)
+      env[v] = "any"
+      uses = ["sorted({v})", "max({v})", "min({v})", "list({v})", "list(reversed(list({v})))", "next(iter({v}))",
+              "tuple({v})", "set({v})", "[e for e in {v}][0:1]", "dict.fromkeys({v})", "{{'k': {v}}}.get('k')",
+              "{{'k': {v}}}.get('q', {v})", "list(zip({v}, {v}))", "list(enumerate({v}))"]
+      if et1 in ("int", "float") and et2 in ("int", "float"):
+        uses.append("sum({v})")
+      for u in r.sample(uses, r.randint(1, 3)):
+        w = self.fresh()
+        self.emit(f"{w} = " + u.format(v=v), ind)
+        env[w] = "any"
+    elif x > 0.965 and depth < 2:
       # numeric-tower / bytes-like probe: isinstance against the *promoted* class must not fold
       v, w = self.fresh(), self.fresh()
       lo, hi, test = r.choice([("int", "float", "float"), ("int", "float", "complex"), ("bool", "float", "float"),
@@ -879,6 +916,50 @@ class Gen:
     if n_items == 0:
       self.emit("pass", 1)
 
+  def diamond(self):
+    """Cooperative multiple inheritance: Base <- Left, Right <- Both with super() chains."""
+    r = self.r
+    k = len(self.classes)
+    base, left, right, both = (f"D{k}B", f"D{k}L", f"D{k}R", f"D{k}X")
+    tb, tl, tr = r.sample(["int", "str", "float", "bytes", "none", ("list", "int")], 3)
+    ab, ar, al = self.fresh("tag"), self.fresh("tag"), self.fresh("tag")
+    self.emit(f"class {base}:", 0)
+    self.emit("def __init__(self):", 1)
+    self.emit(f"self.{ab} = {self.literal(tb)}", 2)
+    self.emit("def m(self):", 1)
+    self.emit(f"return {self.literal(tb)}", 2)
+    self.emit(f"class {left}({base}):", 0)
+    self.emit("def __init__(self):", 1)
+    self.emit("super().__init__()", 2)
+    self.emit(f"self.{al} = {self.literal(tl)}", 2)
+    self.emit("def m(self):", 1)
+    self.emit(r.choice(["return super().m()", "return (super().m(), 1)"]), 2)
+    self.emit(f"class {right}({base}):", 0)
+    self.emit("def __init__(self):", 1)
+    self.emit("super().__init__()", 2)
+    self.emit(f"self.{ar} = {self.literal(tr)}", 2)
+    self.emit("def m(self):", 1)
+    self.emit(f"return {self.literal(tr)}", 2)
+    order = r.choice([(left, right), (left, right), (right, left)])
+    self.emit(f"class {both}({order[0]}, {order[1]}):", 0)
+    self.emit("pass", 1)
+    for cname, bases, attrs in ((base, [], {ab: tb}), (left, [base], {al: tl}), (right, [base], {ar: tr}),
+                                (both, list(order), {})):
+      c = Cls(cname, bases)
+      c.attrs = dict(attrs)
+      c.init_params = []
+      c.methods = {"m": Fn("m", [], "any")}
+      self.classes[cname] = c
+    o = self.fresh("o")
+    self.emit(f"{o} = {both}()", 0)
+    v = self.fresh()
+    self.emit(f"{v} = {o}.m()", 0)
+    w = self.fresh()
+    self.emit(f"{w} = ({o}.{ab}, {o}.{al}, {o}.{ar})", 0)
+    o2 = self.fresh("o")
+    self.emit(f"{o2} = {left}()", 0)
+    self.emit(f"{self.fresh()} = {o2}.m()", 0)
+
   def eff_init(self, cname):
     c = self.classes[cname]
     if c.init_params or not c.bases:
@@ -892,6 +973,8 @@ class Gen:
     self.emit("return n % 2 == 0", 1)
     for _ in range(r.choice([0, 1, 1, 2, 3])):
       self.class_def()
+    if r.random() < 0.12:
+      self.diamond()
     for _ in range(r.choice([1, 2, 2, 3, 4])):
       f = self.func_def()
       self.funcs[f.name] = f
